@@ -58,6 +58,12 @@ func runC06(c *Ctx) {
 			continue
 		}
 		pos := p.Rel(u.Pos())
+		if why := incompleteCodec(w, m, u); why != "" {
+			for _, rule := range []string{"extract", "sym", "contig", "count", "consumed", "trailing"} {
+				c.NotDecided(rule, wt.name, pos, why)
+			}
+			continue
+		}
 		c.guard("sym", wt.name, pos, func() {
 			switch wt.mode {
 			case "date":
@@ -146,11 +152,11 @@ func c06Plain(c *Ctx, w *prove.World, wt wireType, m, u *ssa.Function) {
 	}
 	decs, all := decStreams(w, u)
 	if bad := hasUnknown(enc); bad != "" {
-		r.Undecided("extract", wt.name, pos, "encoder layout not recognised: "+bad)
+		c.NotDecided("extract", wt.name, pos, "encoder layout not recognised: "+bad)
 		return
 	}
 	if bad := hasUnknown(all); bad != "" {
-		r.Undecided("extract", wt.name, pos, "decoder layout not recognised: "+bad)
+		c.NotDecided("extract", wt.name, pos, "decoder layout not recognised: "+bad)
 		return
 	}
 	var dec []codec.Atom
@@ -358,11 +364,11 @@ func c06Cases(c *Ctx, w *prove.World, wt wireType, m, u *ssa.Function) {
 			enc[i].Cond = false
 		}
 		if bad := hasUnknown(enc); bad != "" {
-			r.Undecided("extract", key, pos, "encoder: "+bad)
+			c.NotDecided("extract", key, pos, "encoder: "+bad)
 			continue
 		}
 		if bad := hasUnknown(dec); bad != "" {
-			r.Undecided("extract", key, pos, "decoder: "+bad)
+			c.NotDecided("extract", key, pos, "decoder: "+bad)
 			continue
 		}
 		r.OK("extract", key, pos, "enc ["+codec.Render(enc)+"] dec ["+codec.Render(dec)+"]")
@@ -461,7 +467,7 @@ func c06Inner(c *Ctx, w *prove.World, wt wireType, m, u *ssa.Function) {
 	decInner := decs["field SMB_STRING.Buffer"]
 	decOuter := decs["data"]
 	if bad := hasUnknown(append(append([]codec.Atom{}, inner...), decInner...)); bad != "" {
-		r.Undecided("extract", wt.name, pos, bad)
+		c.NotDecided("extract", wt.name, pos, bad)
 		return
 	}
 	r.OK("extract", wt.name, pos, "inner enc ["+codec.Render(inner)+"] dec ["+codec.Render(decInner)+"]; outer enc ["+codec.Render(outer)+"] dec ["+codec.Render(decOuter)+"]")
@@ -489,7 +495,7 @@ func c06Date(c *Ctx, w *prove.World, m, u *ssa.Function) {
 		}
 	}
 	if put == nil {
-		r.Undecided("sym", "SMB_DATE.Marshal", pos, "no PutUint16/AppendUint16 of the packed word found")
+		c.NotDecided("sym", "SMB_DATE.Marshal", pos, "the packed word is not written through encoding/binary (PutUint16/AppendUint16): byte-wise emission is outside this rule's method")
 		return
 	}
 	em := codec.NewExt(w, m)
@@ -586,7 +592,7 @@ func c06Date(c *Ctx, w *prove.World, m, u *ssa.Function) {
 		}
 	}
 	if get == nil {
-		r.Undecided("sym", "SMB_DATE.Unmarshal", p.Rel(u.Pos()), "no Uint16 read of the packed word found")
+		c.NotDecided("sym", "SMB_DATE.Unmarshal", p.Rel(u.Pos()), "the packed word is not read through encoding/binary Uint16: byte-wise assembly is outside this rule's method")
 		return
 	}
 	an2 := &lanes.Analyzer{InModule: p.InModule}
@@ -754,7 +760,7 @@ func c06Trailing(c *Ctx, wt wireType, u *ssa.Function) {
 				continue
 			}
 			bi, isB := call.Call.Value.(*ssa.Builtin)
-			if !isB || bi.Name() != "len" || !viewOf(call.Call.Args[0], data) {
+			if !isB || bi.Name() != "len" || !lenDependsOnInput(call.Call.Args[0], data, 0) {
 				continue
 			}
 			for _, ref := range *call.Referrers() {
@@ -950,6 +956,17 @@ func c06RepeatCount(c *Ctx, w *prove.World, name string, u *ssa.Function, rep co
 		v, _ := fi.TermValue(t)
 		if ph, isPhi := v.(*ssa.Phi); isPhi && ph.Block() == hb {
 			stride = el.OffForm.Coef[t].Int64()
+			// the counter's value in the first iteration (range loops start their φ at -1)
+			for i, pr := range hb.Preds {
+				if hb.Dominates(pr) {
+					continue
+				}
+				if k, isK := ph.Edges[i].(*ssa.Const); isK && k.Value != nil {
+					if n, exact := constant.Int64Val(k.Value); exact {
+						start = start.AddK(n * stride)
+					}
+				}
+			}
 			continue
 		}
 		start = start.Add(lin.V(t).Scale(el.OffForm.Coef[t]))
@@ -961,6 +978,11 @@ func c06RepeatCount(c *Ctx, w *prove.World, name string, u *ssa.Function, rep co
 	}
 	n := 0
 	for i, ret := range successReturns(u) {
+		if hb != ret.Block() && !blockReaches(hb, ret.Block()) {
+			// an early success return before the loop (the empty case): its count is
+			// covered by `consumed`; the element-count relation is about returns after the loop
+			continue
+		}
 		cx := fi.CtxBefore(ret)
 		want := start.Add(cx.Lin(bound).ScaleI(int64(el.Width))).AddK(int64(trail))
 		got := cx.Lin(ret.Results[0])
@@ -975,4 +997,77 @@ func c06RepeatCount(c *Ctx, w *prove.World, name string, u *ssa.Function, rep co
 	if n == 0 {
 		r.Undecided("count", key, p.Rel(u.Pos()), "no success return")
 	}
+}
+
+// lenDependsOnInput: does len(v) vary with the length of the input parameter?
+// A view with an explicit upper bound (data[a:b]) has length b-a whatever
+// follows it in the input; only open-ended views (data, data[a:]) carry the
+// input length — unless the bound itself is computed from such a length.
+func lenDependsOnInput(v ssa.Value, data *ssa.Parameter, depth int) bool {
+	if depth > 8 {
+		return true
+	}
+	if v == ssa.Value(data) {
+		return true
+	}
+	switch x := v.(type) {
+	case *ssa.Slice:
+		if x.High == nil {
+			return lenDependsOnInput(x.X, data, depth+1)
+		}
+		return intDependsOnInputLen(x.High, data, depth+1) || (x.Low != nil && intDependsOnInputLen(x.Low, data, depth+1))
+	case *ssa.Phi:
+		for _, e := range x.Edges {
+			if e != ssa.Value(x) && lenDependsOnInput(e, data, depth+1) {
+				return true
+			}
+		}
+		return false
+	}
+	return false
+}
+
+func intDependsOnInputLen(v ssa.Value, data *ssa.Parameter, depth int) bool {
+	if depth > 8 {
+		return true
+	}
+	switch x := v.(type) {
+	case *ssa.Const:
+		return false
+	case *ssa.Call:
+		if bi, ok := x.Call.Value.(*ssa.Builtin); ok && bi.Name() == "len" {
+			return lenDependsOnInput(x.Call.Args[0], data, depth+1)
+		}
+		return false
+	case *ssa.BinOp:
+		return intDependsOnInputLen(x.X, data, depth+1) || intDependsOnInputLen(x.Y, data, depth+1)
+	case *ssa.Convert:
+		return intDependsOnInputLen(x.X, data, depth+1)
+	case *ssa.Phi:
+		for _, e := range x.Edges {
+			if e != ssa.Value(x) && intDependsOnInputLen(e, data, depth+1) {
+				return true
+			}
+		}
+	}
+	return false
+}
+
+func blockReaches(from, to *ssa.BasicBlock) bool {
+	seen := map[*ssa.BasicBlock]bool{}
+	work := []*ssa.BasicBlock{from}
+	for len(work) > 0 {
+		x := work[len(work)-1]
+		work = work[:len(work)-1]
+		for _, s := range x.Succs {
+			if s == to {
+				return true
+			}
+			if !seen[s] {
+				seen[s] = true
+				work = append(work, s)
+			}
+		}
+	}
+	return false
 }
